@@ -20,9 +20,9 @@ use super::{
     corruption_crc_checksum_failed, corruption_entry_size_exceeds_max, corruption_fsync_failed,
     corruption_header_size_exceeds_max, corruption_invalid_discriminant, corruption_log_poisoned,
     corruption_shared_not_zero, corruption_true_up_exceeds_header_max,
-    corruption_truncation_no_second_header, empty_batch, error_with_path, io_result,
-    io_result_with_context, logic_error_buf_writer_into_inner_failed, system_error, table_full,
-    unpack_key_value_entry_prototk, unpack_log_header,
+    corruption_true_up_padding_not_zero, corruption_truncation_no_second_header, empty_batch,
+    error_with_path, io_result, io_result_with_context, logic_error_buf_writer_into_inner_failed,
+    system_error, table_full, unpack_key_value_entry_prototk, unpack_log_header,
 };
 
 //////////////////////////////////////////// biometrics ////////////////////////////////////////////
@@ -775,6 +775,17 @@ impl<R: Read + Seek> LogIterator<R> {
         let trued_up = compute_true_up(offset);
         if trued_up - offset > HEADER_MAX_SIZE {
             return Err(corruption_true_up_exceeds_header_max(offset, trued_up));
+        }
+        // The writer only ever pads with zeroes.  Anything else in the bytes about to be skipped
+        // is a damaged frame, not padding.  A file that ends inside the padding is fine.
+        let mut padding = Vec::with_capacity(HEADER_MAX_SIZE as usize);
+        io_result(
+            (&mut self.input)
+                .take(trued_up - offset)
+                .read_to_end(&mut padding),
+        )?;
+        if padding.iter().any(|b| *b != 0) {
+            return Err(corruption_true_up_padding_not_zero(offset, trued_up));
         }
         io_result(self.input.seek(SeekFrom::Start(trued_up)))?;
         Ok(())
